@@ -16,7 +16,7 @@ STUBS = ['np.interp -> numpy-exact contract model', 'scipy.interpolate.interp1d 
 
 
 @harness('C13', 'columns',
-         quick=[dict(n=2, kind='transmission'), dict(n=2, kind='emission'), dict(n=3, kind='transmission', _shards=4)],
+         quick=[dict(n=2, kind='transmission'), dict(n=2, kind='emission')],
          thorough=[dict(n=3, kind='transmission', _shards=4), dict(n=3, kind='emission', _shards=4), dict(n=4, kind='transmission', _shards=8)],
          covers=['unsaturated', 'saturated_somewhere'], functions=FUNCS, stubs=STUBS, shard_depth=4)
 def columns(ctx, n, kind):
@@ -47,7 +47,7 @@ def columns(ctx, n, kind):
             m.add_contribution(SigmaContribution.make('b', s2[:, cols], 'sigma', 1))
             if kind == 'transmission':
                 d, t, tau = _run(ctx, m, wn, dl)
-                return d, tau
+                return d, (tau, t)
             m._star.initialize(wn)
             for c in m.contribution_list:
                 c.prepare(m, wn)
@@ -55,6 +55,8 @@ def columns(ctx, n, kind):
             return out, None
         full, tau_full = run(wn_full, slice(0, 2))
         sub, tau_sub = run(wn_sub, slice(0, 1))
+        if kind == 'transmission':
+            (tau_full, tr_full), (tau_sub, tr_sub) = tau_full, tau_sub
     finally:
         for e in reversed(envs):
             e.__exit__(None, None, None)
@@ -69,10 +71,12 @@ def columns(ctx, n, kind):
             ctx.goal('tau_column[%d]' % l, ctx.or_(ctx.eq(tau_sub[l, 0], tau_full[l, 0]),
                                                    ctx.and_(ctx.lt(10.0, tau_sub[l, 0]), ctx.lt(10.0, tau_full[l, 0]))))
         ctx.goal('depth_exact_if_unsaturated', ctx.or_(ctx.eq(sub[0], full[0]), sat_any))
+        # per layer the transmittance at v1 is the same, or both runs are below exp(-10) there: the depths then differ
+        # by at most exp(-10) * sum 2(Rp+z)dz/Rs^2 (each layer enters the depth integral linearly)
         E10 = ctx.exp(-10.0)
-        A = sum((2.0 * (Rp + z[l]) * dz[l] for l in range(1, n)), 2.0 * (Rp + z[0]) * dz[0]) / (Rs * Rs)
-        ctx.goal('depth_within_cutoff', ctx.and_(ctx.le(sub[0] - E10 * A, full[0], scale=None if ctx.sym else 1.0),
-                                                 ctx.le(full[0] - E10 * A, sub[0], scale=None if ctx.sym else 1.0)))
+        for l in range(n):
+            ctx.goal('transmittance_within_cutoff[%d]' % l, ctx.or_(ctx.eq(tr_sub[l, 0], tr_full[l, 0]),
+                                                                   ctx.and_(ctx.lt(tr_sub[l, 0], E10), ctx.lt(tr_full[l, 0], E10))))
     else:
         col = [sum(((s1[k, 0] + s2[k, 0]) * rho[k] * dz[k] for k in range(l + 1, n)), (s1[l, 0] + s2[l, 0]) * rho[l] * dz[l]) for l in range(n)]
         sat_any = ctx.or_([ctx.le(10.0, col[l]) for l in range(n)])
@@ -194,21 +198,23 @@ def native_grid(ctx):
 
 
 @harness('C13', 'clip_binning',
-         quick=[dict(nn=4, spacing='uniform'), dict(nn=5, spacing='uniform', _shards=4)],
-         thorough=[dict(nn=5, spacing='uniform', _shards=4), dict(nn=6, spacing='uniform', _shards=8), dict(nn=4, spacing='free', _shards=8)],
-         functions=FUNCS, stubs=STUBS, shard_depth=4, max_paths=60000, covers=['something_clipped'],
+         quick=[dict(nn=4, spacing='uniform', _shards=4), dict(nn=5, spacing='uniform', _shards=8), dict(nn=4, spacing='uniform', obs3=True, _shards=16)],
+         thorough=[dict(nn=5, spacing='uniform', _shards=4), dict(nn=6, spacing='uniform', _shards=8), dict(nn=4, spacing='free', _shards=8),
+                   dict(nn=5, spacing='uniform', obs3=True, _shards=16), dict(nn=4, spacing='free', obs3=True, _shards=16)],
+         functions=FUNCS, stubs=STUBS, shard_depth=10, max_paths=60000, covers=['something_clipped'],
          outside=['more native points / observation bins than listed'])
-def clip_binning(ctx, nn, spacing):
+def clip_binning(ctx, nn, spacing, obs3=False):
     """Real clip_native_to_wngrid + FluxBinner (as SimpleForwardModel.model does for an observation): for a symbolic
     increasing native grid finer than half the widest mid-point bin of the observation grid, and observation bins no
     wider than that bin, binning the model restricted to the clipped grid equals binning the full native model, bin
     by bin."""
     from taurex.util.util import clip_native_to_wngrid, compute_bin_edges
     from taurex.binning.fluxbinner import FluxBinner
-    obs = np.array([100.0, 104.0])
+    obs = np.array([100.0, 101.0, 104.0]) if obs3 else np.array([100.0, 104.0])     # obs3: non-uniform bin widths 1, 2, 3
     Wmax = float(compute_bin_edges(obs)[-1].max())          # 10
-    ow = ctx.reals('obs_width', 2, gt=0, hint=(1, 4))
-    for i in range(2):
+    nobs = len(obs)
+    ow = ctx.reals('obs_width', nobs, gt=0, hint=(0.5, 3))
+    for i in range(nobs):
         ctx.assume(ow[i] <= Wmax)
     if spacing == 'uniform':
         x0 = ctx.real('nat0', hint=(88, 100))
@@ -234,6 +240,6 @@ def clip_binning(ctx, nn, spacing):
     # only bins that the full native grid covers completely are compared (the clause is about clipping, not about
     # bins hanging over the end of the native grid)
     e_full = compute_bin_edges(native)[0]
-    for j in range(2):
+    for j in range(nobs):
         covered = ctx.and_(ctx.le(e_full[0], obs[j] - ow[j] / 2), ctx.le(obs[j] + ow[j] / 2, e_full[-1]))
         ctx.goal('same_binned_value[%d]' % j, ctx.implies(covered, ctx.eq(sub[j], full[j], scale=None if ctx.sym else 1.0)))
